@@ -5,10 +5,11 @@
    and its dense value at (r, c) is the sum of the stored blocks embedded at their slices (to_ndarray).
    The per-block factorisations are an INPUT of the assembly (records fac3 below); the theorems of
    Proofs/FactorDenseP.v quantify over them, with LAPACK's specification as hypotheses.
-   These definitions are not executed against the code by harness/c05.py; they are tied to the
-   correspondence-checked plan of Model/Factor.v by T05_svd_inner_sizes (same kept blocks, same coordinates,
-   same sizes of the new leg) and to the code by reading (_svd_worker: U_qdata = [qi_L, arange],
-   VH_qdata = [arange, qi_R], new_leg_slices = cumulative kept ranks, S = concatenate). *)
+   Tie to the code: kept / svd_U / svd_V / svd_S / inner_sizes / svd_U_full and pos_diag are executed against
+   npc.svd and npc.qr(pos_diag_R=True) by Model/FactorCase2.v (check_svd_dense_case, check_posdiag_case) in the
+   'plan' stream of harness/c05.py, with the per-block LAPACK results replaced by recorded integer-valued
+   matrices (_svd_worker: U_qdata = [qi_L, arange], VH_qdata = [arange, qi_R], new_leg_slices = cumulative kept
+   ranks, S = concatenate); T05_svd_inner_sizes links them to the plan of Model/Factor.v. *)
 From TenpyV Require Import Base.Prelude.
 Open Scope Z_scope.
 
